@@ -345,7 +345,19 @@ def gen_session(r, link, nframes=None, auth=None, big_ok=True, raw=0.15, units_k
 
 # ------------------------------------------------------------------------------------------ running
 def run_impl(ctx, cases, shards=16):
-    return ctx.harness('server', [to_line(c) for c in cases], shards=shards)
+    """the production session task on every case. Logging must not influence behaviour (C20): every 7th
+    case has a ChangeDecoding(max) command inserted between two of its frames, which makes the session
+    format every PDU / frame / byte dump from then on; the expected output is unchanged."""
+    lines = []
+    for k, c in enumerate(cases):
+        line = to_line(c)
+        if k % 7 == 3 and c[3]:
+            head, fs = line.rsplit('|', 1)
+            fl = fs.split(',')
+            fl.insert(k % (len(fl) + 1), '@max')
+            line = head + '|' + ','.join(fl)
+        lines.append(line)
+    return ctx.harness('server', lines, shards=shards)
 
 
 def run_coq(ctx, cases, per_shard=None):
